@@ -140,7 +140,8 @@ def build(spec: dict) -> tuple[bytes, dict]:
                     buf[i] = 0xEE
                 continue
             _, off, size, e, kb, body = it
-            ptype = TYPES[e["type"]] | (0x100 if e.get("fo") else 0)
+            # high byte = flags: bit 0 marks a file-object pointer; bit 1 occurs in real files on string entries and means nothing here
+            ptype = TYPES[e["type"]] | (0x100 if e.get("fo") else 0) | (0x200 if e.get("flag2") else 0)
             if e["parent"] is None:
                 pt, po = 0, 0
             else:
